@@ -321,6 +321,22 @@ def _generators():
     ]
 
 
+def _compiled_operands():
+    return [
+        ("operands that hold a compiled pattern build what plain operands build", "def out(f):\n    try:\n        r = f()\n        return ('ok', str(r), type(r).__name__)\n    except Exception as e:\n        return ('raise', type(e).__name__)\n"
+                                                                                  "mk = [lambda: Pregex('x'), lambda: OneOrMore('a'), lambda: Optional(AnyDigit()), lambda: Either('a', 'bc'), lambda: Capture('a', 'n'), lambda: AnyFrom('a', 'b'), lambda: MatchAtStart('a'), lambda: FollowedBy('a', 'b'),\n"
+                                                                                  "      lambda: Exactly('ab', 2), lambda: Pregex(), lambda: Capture('a') + Backreference(1), lambda: AnyDigit(), lambda: Word(), lambda: Integer(1, 20)]\n"
+                                                                                  "def states(f):\n    a = f()\n    b = f(); b.compile()\n    c = f(); c.get_compiled_pattern(discard_after=False)\n    d = f(); d.compile(); d.get_compiled_pattern(discard_after=True)\n    return [a, b, c, d]\n"
+                                                                                  "binary = [lambda x, y: x.preceded_by(y), lambda x, y: x.not_preceded_by(y), lambda x, y: x.enclosed_by(y), lambda x, y: x.not_enclosed_by(y), lambda x, y: PrecededBy(x, y), lambda x, y: NotEnclosedBy(x, 'k', y),\n"
+                                                                                  "          lambda x, y: x.followed_by(y), lambda x, y: x.not_followed_by(y), lambda x, y: x + y, lambda x, y: Either(x, y), lambda x, y: x.enclose(y), lambda x, y: Concat(x, 'q', y), lambda x, y: x.concat(y, on_right=False),\n"
+                                                                                  "          lambda x, y: Conditional('n', x, y)]\n"
+                                                                                  "unary = [lambda x: x.optional(), lambda x: OneOrMore(x, False), lambda x: x.exactly(3), lambda x: x * 2, lambda x: AtLeastAtMost(x, 1, 2), lambda x: Capture(x), lambda x: x.capture('g'), lambda x: Group(x, True),\n"
+                                                                                  "         lambda x: MatchAtLineEnd(x), lambda x: x.match_at_start(), lambda x: ~x, lambda x: x | 'q', lambda x: x - 'a']\n"
+                                                                                  "for f in mk:\n    xs = states(f)\n    for u in unary:\n        base = out(lambda: u(xs[0]))\n        for x in xs[1:]:\n            assert out(lambda: u(x)) == base, (str(xs[0]), unary.index(u))\n"
+                                                                                  "    for g in mk:\n        ys = states(g)\n        for b in binary:\n            base = out(lambda: b(xs[0], ys[0]))\n            for x in xs:\n                for y in ys:\n                    assert out(lambda: b(x, y)) == base, (str(xs[0]), str(ys[0]), binary.index(b), base)"),
+    ]
+
+
 def _history():
     return [
         ("compile() does not change what long or astral patterns match", "for s in ('\\U0001f600', 'a\\U0001f600b', '\\U00010000', '\\U0010ffff\\U0001f468\\u200d\\U0001f469', '\\u202f', '\\u2028x', 'x' * 300 + '\\U0001f600', '\\ud7ff\\ue000', '\\x85\\xa0'):\n    t = 'q' + s + ' ' + s + s\n"
@@ -335,8 +351,8 @@ def _history():
 
 
 FAMILIES = {
-    'C01': _long_literals, 'C02': lambda: _q_cases()[:20] + _many_groups() + _nary() + _deep() + _long_literals()[1:3] + _long_literals()[4:5] + _sweep_bounds(), 'C03': lambda: _sweep_bounds()[1:] + _nary() + _deep() + _long_literals() + _many_groups() + _classes_more()[:2] + _groups_scale() + FAMILIES['C10']()[-1:] + _refs_scale(),
-    'C04': lambda: _q_cases() + _sweep_bounds()[:1], 'C05': lambda: _nary()[3:], 'C06': lambda: _classes()[:1] + _classes_more()[:2], 'C07': lambda: _classes()[1:] + _classes_more()[2:], 'C08': lambda: _many_groups() + _deep()[1:] + _long_literals()[5:] + _groups_scale(),
+    'C01': _long_literals, 'C02': lambda: _q_cases()[:20] + _many_groups() + _nary() + _deep() + _long_literals()[1:3] + _long_literals()[4:5] + _sweep_bounds(), 'C03': lambda: _sweep_bounds()[1:] + _nary() + _deep() + _long_literals() + _many_groups() + _classes_more()[:2] + _groups_scale() + FAMILIES['C10']()[-1:] + _refs_scale() + _compiled_operands(),
+    'C04': lambda: _q_cases() + _sweep_bounds()[:1] + _compiled_operands(), 'C05': lambda: _nary()[3:], 'C06': lambda: _classes()[:1] + _classes_more()[:2], 'C07': lambda: _classes()[1:] + _classes_more()[2:], 'C08': lambda: _many_groups() + _deep()[1:] + _long_literals()[5:] + _groups_scale(),
     'C09': lambda: _nary()[4:] + [("wide repetition of assertions", "for n in (10, 11, 100):\n    for mk in (lambda: MatchAtStart('a'), lambda: FollowedBy('a', 'b'), lambda: EnclosedBy('a', 'b'), lambda: MatchAtLineEnd('a' * 40)):\n"
                                     "        for q in (lambda x: Exactly(x, n), lambda x: x * n, lambda x: AtLeastAtMost(x, 1, n), lambda x: AtLeast(x, n)):\n            try:\n                r = q(mk())\n            except CannotBeRepeatedException:\n                continue\n            raise AssertionError(str(r))\n"
                                     "    assert str(Exactly('a' * 40 + '$', n)).endswith('{%d}' % n)\n"
@@ -346,14 +362,14 @@ FAMILIES = {
                                     "                   lambda: PrecededBy('a', nest(k, cap)), lambda: EnclosedBy(nest(k, cap), nest(k, cap) if not cap else 'q'), lambda: MatchAtEnd(nest(k, cap))):\n"
                                     "            for q in (lambda x: OneOrMore(x), lambda x: x * 2, lambda x: AtLeast(x, 0)):\n                try:\n                    r = q(mk())\n                except CannotBeRepeatedException:\n                    continue\n                raise AssertionError('depth %d: %s' % (k, str(r)[:80]))\n"
                                     "        assert OneOrMore(nest(k, cap)).is_exact_match(('a' + ''.join(chr(ord('b') + i) for i in range(k))) * 2), k")],
-    'C10': lambda: _nary()[4:] + _refs_scale() + [("wide fixed and variable widths", "for w in (10, 11, 64, 100, 255, 300):\n    for y in (Pregex('a' * w), Exactly(AnyDigit(), w), Exactly(Either('ab', 'cd'), w), Concat(*['x'] * w), AtLeastAtMost('a', w, w)):\n"
+    'C10': lambda: _nary()[4:] + _refs_scale() + _compiled_operands() + [("wide fixed and variable widths", "for w in (10, 11, 64, 100, 255, 300):\n    for y in (Pregex('a' * w), Exactly(AnyDigit(), w), Exactly(Either('ab', 'cd'), w), Concat(*['x'] * w), AtLeastAtMost('a', w, w)):\n"
                                     "        import re\n        r = PrecededBy('k', y)\n        re.compile(str(r), 24)\n        assert r.get_matches(('ab' * w + 'a' * w + 'x' * w + '7' * w) + 'k') in ([], ['k'])\n"
                                     "    for y in (AtLeastAtMost('a', w, w + 1), AtLeast('a', w), AtMost(AnyDigit(), w), Either('a' * w, 'a' * (w + 1)), Pregex('a' * w) + Optional('b')):\n"
                                     "        try:\n            r = NotPrecededBy('k', y)\n        except NonFixedWidthPatternException:\n            continue\n        raise AssertionError(str(r))\n"
                                     "assert PrecededBy('k', 'ab' * 50).get_matches('ab' * 50 + 'k') == ['k'] and PrecededBy('k', 'ab' * 50).get_matches('ab' * 49 + 'bk') == []")],
     'C11': lambda: _matching() + _after_exceptions() + _generators() + _sweep_texts(), 'C12': lambda: _matching() + _many_groups()[:2] + _after_exceptions() + _generators() + _sweep_texts()[:1],
     'C13': lambda: _matching() + _many_groups()[4:] + _after_exceptions() + _sweep_texts(), 'C14': lambda: _matching() + _after_exceptions() + _generators() + _sweep_texts()[1:],
-    'C15': lambda: _numeric()[:2] + _sweep_numeric()[:1], 'C16': lambda: _numeric()[2:4] + _sweep_numeric()[1:2], 'C17': lambda: _numeric()[4:] + _sweep_numeric()[1:2], 'C18': _meta_lang, 'C19': lambda: _meta_lang() + _sweep_numeric()[2:], 'C20': lambda: _history() + _after_exceptions() + _generators(),
+    'C15': lambda: _numeric()[:2] + _sweep_numeric()[:1], 'C16': lambda: _numeric()[2:4] + _sweep_numeric()[1:2], 'C17': lambda: _numeric()[4:] + _sweep_numeric()[1:2], 'C18': _meta_lang, 'C19': lambda: _meta_lang() + _sweep_numeric()[2:], 'C20': lambda: _history() + _after_exceptions() + _generators() + _compiled_operands(),
 }
 
 
